@@ -27,7 +27,7 @@ def _case(seed, i, tier):
     np_choices = (1, 1, 1, 2) if tier == "thorough" else ((2,) if i % 12 == 7 else (1,))
     case = RS.make_case(rng, allow_method_change=mc, faults_ok=True,
                         geoms=geoms, np_choices=np_choices)
-    if i % 6 == 2 and not any(op.get("tag") == "outside" for op in case["ops"]):
+    if i % 6 == 2:
         # stratum: a regrid that raises half-way, then the repair of only the bad values
         extra = RS.make_case(core.stream(s, "outside"), geoms=(case["workload"]["geometry"],))
         pool = RS.settings_pool(case["workload"]["geometry"])
@@ -41,7 +41,13 @@ def _case(seed, i, tier):
                            {"op": "write"}]
         else:
             # raise half-way, then go back to exactly the settings that worked last
-            case["ops"] = [{"op": "regrid", "s": dict(good, **bad), "tag": "outside"},
+            first = {"op": "regrid", "s": dict(good, **bad), "tag": "outside"}
+            if (i // 12) % 3 != 2:
+                # ... refused at a depth the simulator chooses (faults.RegridRefusal):
+                # some contours have been moved when the user goes back
+                first = {"op": "regrid", "s": dict(good), "tag": "outside",
+                         "refuse_at": (3, 2, 5, 9, 14)[(i // 12) % 5]}
+            case["ops"] = [first,
                            {"op": "regrid", "s": dict(case["s0"]), "tag": "undo-final"},
                            {"op": "write"}]
         del extra
@@ -52,9 +58,13 @@ def _case(seed, i, tier):
         # stratum: back to the defaults by passing a literally empty dict, from a state
         # that is not the default one
         pool = RS.settings_pool(case["workload"]["geometry"])
-        if not case["s0"] and not any(op.get("s") for op in case["ops"][:-2]):
+        if not case["s0"] and not any(op["op"] == "regrid" and op.get("s") for op in case["ops"][:-2]):
             case["s0"] = dict(pool[1 + (i // 12) % (len(pool) - 1)])
         case["ops"][-2] = {"op": "regrid", "s": {}, "partial": True, "tag": "defaults"}
+    if i % 12 == 9 and not any(op["op"] == "other_mesh" for op in case["ops"]):
+        # stratum: another mesh of another topology was regridded earlier in the session
+        case["ops"].insert(0, RS.other_mesh_op(core.stream(s, "other"),
+                                               case["workload"]["geometry"]))
     if mc and not RS.has_method_change(case):
         case["ops"][-2]["s"]["nonorthogonal_spacing_method"] = (
             "poloidal_orthogonal_combined" if RS.method_of(case["s0"]) == "combined"
@@ -175,8 +185,10 @@ def main(tier, seed):
         "distinct_nontrivial": len(shapes),
         "rule": "one evaluation = one history (initial non-orthogonal build, 0-3 operations "
                 "from {regrid, return to earlier settings, repeat, regrid with junk options, "
-                "invalid value, settings that raise half-way, write, regrid under injected "
-                "refine failure/timeout}, final regrid + write) compared with a fresh build. "
+                "invalid value, settings that raise half-way or a refusal injected at a "
+                "chosen contour (faults.RegridRefusal), write, regrid under injected refine "
+                "failure/timeout, another mesh of another topology regridded in the same "
+                "interpreter}, final regrid + write) compared with a fresh build. "
                 "Distinct non-trivial = distinct (topology, guards, initial settings, "
                 "operation sequence) shapes among histories whose final grid was compared.",
         "samples": samples or [{"case": cases[0]}],
